@@ -130,7 +130,10 @@ fn main() {
                 if w.props.contains(&id.as_str()) {
                     r.oracle_checks += 1;
                     if let Err(e) = (w.run)() {
-                        r.fail(format!("witness {}", w.id), &format!("{}:{}", w.id, "witness"), format!("{} :: {}", w.what, e));
+                        // the finding's class only when the witness saw EXACTLY the documented wrong answer (an open finding's
+                        // witness says so); a panic, another error or a different wrong answer is an unknown failure
+                        let class = if e.starts_with(witness::KNOWN_DEVIATION) { format!("{}:{}", w.id, "witness") } else { format!("witness-failed-differently:{}", w.id) };
+                        r.fail(format!("witness {}", w.id), &class, format!("{} :: {}", w.what, e));
                     }
                 }
             }
